@@ -1,5 +1,11 @@
 #!/bin/sh
-# setup_cmd: regenerate Gen from /repo's working tree, build every Props module and the model driver.
+# setup_cmd: regenerate Gen + registries from /repo's working tree, build every Lean module
+# (models, theorems) and one model-driver executable per property.
 cd "$(dirname "$0")" || exit 2
 /venv/bin/python -m harness.gen || exit 1
-cd lean && lake build Aiortc modeldrv
+cd lean || exit 2
+lake build Aiortc || exit 1
+for f in Drivers/C*.lean; do
+  p=$(basename "$f" .lean)
+  lake build "drv_$p" || exit 1
+done
